@@ -398,7 +398,10 @@ def h_pubsub(t, part):
 SC_OPS = ['emit', 'call+ack', 'event arrives', 'two events arrive', 'receive', 'receive timeout', 'server ends', 'disconnect']
 
 
-def run_simple(asyncio_, plan):
+def run_simple(asyncio_, plan, live_only=False):
+    """live_only (used by C19's absolute oracle): nothing arrives once the connection has ended, and the trace carries
+    ('arrived', event) / ('ended',) markers for the reference model"""
+    ended = [False]
     drv = worlds.AsyncDriver(None, 3000) if asyncio_ else worlds.SyncDriver()
     P = worlds.inj_packet_class()
     holder = {}
@@ -460,6 +463,17 @@ def run_simple(asyncio_, plan):
         c = holder['c']
         for op in plan:
             name = SC_OPS[op]
+            if live_only and ended[0] and name in ('two events arrive', 'event arrives', 'server ends'):
+                continue
+            if live_only:
+                if name == 'two events arrive':
+                    tr.extend([('arrived', ['burst', 0]), ('arrived', ['burst', 1])])
+                elif name == 'event arrives':
+                    tr.append(('arrived', ['news', len(tr) + 1]))
+                elif name in ('server ends', 'disconnect'):
+                    if name == 'server ends':
+                        tr.append(('ended',))
+                    ended[0] = True
             if name == 'emit':
                 api('emit', lambda: sc.emit('hello', (1, 'x')))
             elif name == 'call+ack':
